@@ -567,6 +567,34 @@ def r_ctor_guards(rep, prog):
                       "a raw view of the buffer is created before the length/alignment guard", b.term(vb_)["span"])
 
 
+def r_err_kinds(rep, prog):
+    """Error discipline of the allocation call tree: Error::Argument originates only in LLFree::check (and the zone translation);
+    every other failure below the API is Error::Memory, which is what the callers' fall-through arms (`Err(Error::Memory) => {}`)
+    continue on. A helper that reports exhaustion as another error ends the search early and mislabels it as a caller mistake."""
+    rule = "R-ERR-KINDS"
+    rep.rule(rule, "LLFree::check fails with Argument only; get_at / get_local / steal_* / demote_local / reserve_or_steal and the "
+                   "lower-level get / put fail with Memory only")
+    dom = lib.error_domains(prog)
+    E = {v["name"]: v["discr"] for v in prog.crate("llfree").adts["llfree::Error"]["variants"]}
+    want = {"llfree::llfree::LLFree::check": {E["Argument"]}}
+    for fn in ("llfree::llfree::LLFree::get_at", "llfree::llfree::LLFree::get_local", "llfree::llfree::LLFree::reserve_or_steal",
+               "llfree::llfree::LLFree::steal_global", "llfree::llfree::LLFree::steal_local", "llfree::llfree::LLFree::demote_local",
+               "llfree::lower::Lower::get", "llfree::lower::Lower::get_at", "llfree::lower::Lower::put", "llfree::lower::Lower::put_small",
+               "llfree::lower::Lower::partial_put_huge"):
+        want[fn] = {E["Memory"]}
+    names = {v: k for k, v in E.items()}
+    n = 0
+    for fn, w in sorted(want.items()):
+        b = prog.body(fn)
+        if b is None:
+            continue
+        n += 1
+        got = dom.get(fn)
+        rep.check(got is not None and set(got) <= w, rule, "%s|errors" % fn, "fails only with %s" % "/".join(sorted(names[x] for x in w)),
+                  "%s can fail with %s (expected only %s)" % (fn, sorted(names.get(x, x) for x in (got or [])), sorted(names[x] for x in w)), b.span)
+    rep.floor(rule, "functions with a fixed error kind", n, 8)
+
+
 def run(rep, programs):
     prog = programs["core"]
     r_check_dom(rep, prog)
@@ -574,3 +602,4 @@ def run(rep, programs):
     r_zone_flow(rep, prog)
     r_new_valid(rep, prog)
     r_ctor_guards(rep, prog)
+    r_err_kinds(rep, prog)
